@@ -149,6 +149,25 @@ def extra_cases(rng, tier):
                      {"api": "upload", "idx": 0x2000, "sub": 0, "inject_before": [s, s]},
                      {"api": "upload", "idx": 0x2007, "sub": 0, "inject_before": [s]}]
             cases.append({"od": od, "cod": [], "calls": calls, "seed": 0, "style": None})
+    # entries at a sub-index other than 0: a response that names the same index but sub-index 0 (the late
+    # answer to an earlier request for the neighbouring entry) or another sub-index is not the answer
+    for sub in (1, 2, 255):
+        for n in (2, 4, 20):
+            for api in ("upload", "open_r", "download"):
+                for kind, other in (("stale", 0), ("stale", sub ^ 3), ("mux", 0), ("muxsub", 0)):
+                    od = [entry(0x2100, sub, payload(rng, n), acc="ro" if api != "download" else "rw"), entry(0x2100, 0, [7]),
+                          entry(0x2007, 0, [5, 4, 3, 2, 1, 0, 9, 8, 7, 6, 5])]
+                    fault = {"kind": kind, "step": 0, "subx": sub}
+                    if api == "download":
+                        call = {"api": "download", "idx": 0x2100, "sub": sub, "data": payload(rng, n), "force": False}
+                        fault["d"] = [0x60, 0x00, 0x21, other, 0, 0, 0, 0]
+                    else:
+                        call = {"api": api, "idx": 0x2100, "sub": sub, "buffering": 0, "reads": []}
+                        fault["d"] = [0x43, 0x00, 0x21, other, 9, 9, 9, 9] if n != 2 else [0x4B, 0x00, 0x21, other, 9, 9, 0, 0]
+                    call["fault"] = fault
+                    follow = [{"api": "upload", "idx": 0x2100, "sub": sub}, {"api": "upload", "idx": 0x2007, "sub": 0}]
+                    cases.append({"od": od, "cod": [], "calls": [call] + follow, "seed": rng.randrange(1 << 30),
+                                  "style": {"small": "exp", "size_ind": True, "chunk": "full"}})
     reps = 150 if tier == "quick" else 3000
     for i in range(reps):
         n = rng.choice([rng.randrange(16, 200), rng.randrange(16, 1000)])
